@@ -64,8 +64,9 @@ Print Assumptions C08_table_names_resolve.
 
 (** Every anchored stochastic component (7 mating protocols and the meiosis helpers, G_E_Phenotyping, the sampling
     functions, the 8 selection-configuration classes, the hill climbers, all pymoo optimisers built from pymoo's own or from
-    the subset operators, the legacy set GA, and — since their repair — the 8 selection protocols' select() and default-optimiser
-    setters, the random-selection problem constructors, Generalized1NormGenomicSelection.select) does use a generator, and
+    the subset operators or the memetic mutation operators, the legacy set GA, and — since their repair — the 8 selection protocols'
+    select() and default-optimiser setters, the random-selection problem constructors, Generalized1NormGenomicSelection.select, the
+    memetic mutation operators themselves, the rng setters of the selection protocols) does use a generator, and
     every function it can reach references only: its rng parameter (or the random_state pymoo hands over), an owned generator,
     or global_prng as the default for a missing one.
     (For the optimisers and select(), which call back into arbitrary problem / optimiser objects, the named root causes are excepted.) *)
@@ -85,7 +86,7 @@ Proof. exact WP.anchored_isolated. Qed.
 Print Assumptions C08_anchored_components_isolated.
 
 (** The repaired findings (C08-ga-ignores-rng, C08-selcfg-global-rng, C08-helpers-global-rng, C08-g1norm-global-shuffle,
-    C08-setga-python-random) at full strength: every formerly failing site (the former root causes) now references explicit
+    C08-setga-python-random, C08-memetic-ignores-rng, the rng setters of C08-selprot-rng-setter-stale-optimiser) at full strength: every formerly failing site (the former root causes) now references explicit
     sources only in its own body — no rng = None passed on, no numpy.random / random —, does reference a generator, is NOT on
     the exception list, and reaches nothing but explicit sources up to the root causes that remain. *)
 Theorem C08_repaired_sites_explicit : forall nm p, In nm FP.repaired -> FP.id_of nm = Some p ->
@@ -115,7 +116,7 @@ Proof. exact FPP.no_os_entropy. Qed.
 Print Assumptions C08_no_component_reaches_os_entropy.
 
 (** Every function that accepts rng, and every member of a class that owns a generator, reaches only explicit sources —
-    except through the named root causes of the findings that REMAIN known (memetic mutation operators; helpers without an rng
+    except through the named root causes of the findings that REMAIN known (helpers without an rng
     parameter: apply_jitter, EMBV from_gmod, the look-ahead latentfn; deap's selTournamentDCD; prng.seed/spawn by design).
     A new hidden source anywhere else breaks this theorem. *)
 Theorem C08_rng_components_explicit_partial : forall c k, In c rng_components -> FP.reach FP.tbl c k ->
@@ -217,7 +218,8 @@ Example C08_kernel_minimize_hyps_satisfiable :
   k_minimize_seed 0 = 0%Z /\ k_minimize_seed (4294967295 # 4294967296) = (2 ^ 32 - 1)%Z.
 Proof. repeat split; try (vm_compute; congruence); exact (proj2 kernel_minimize_seed_ends). Qed.
 
-(** ** copies of stochastic components (objects holding a generator; copy / deepcopy / .copy() / .deepcopy() share it) *)
+(** ** copies of stochastic components (objects holding a generator; copy / deepcopy / .copy() / .deepcopy() share it — for EVERY
+    stochastic class since the repair of C08-default-deepcopy-snapshots-rng) *)
 
 (** Using a copy is using its source: same output, same world afterwards — the generator the source holds is consumed (for
     rng = None the global numpy stream, for an explicit generator that generator), no generator is allocated. *)
@@ -258,30 +260,67 @@ Theorem C08_explicit_isolated_with_copies : forall (G O : Type) (out_unit : O) (
 Proof. exact OBP.obj_explicit_isolated. Qed.
 Print Assumptions C08_explicit_isolated_with_copies.
 
-(** A copy that snapshots the generator (copy.deepcopy(self.rng): the seeded regression C08-pheno-deepcopy-rng; also what python's
-    default deepcopy does to a component without a __deepcopy__ of its own) breaks both clauses: made before the seeding, its
-    output after seed(s) depends on the world at copy time; with an explicit generator it leaves that generator unconsumed. *)
-Theorem C08_snapshot_copy_refuted :
+(** Regression witness about the FORMER code ([OB.old_default_deepcopy_step]: python's default deep copy of a stochastic component, which
+    duplicated the generator — C08-default-deepcopy-snapshots-rng, repaired; also what the seeded regression C08-pheno-deepcopy-rng,
+    copy.deepcopy(self.rng), does): a copy that snapshots the generator breaks both clauses: made before the seeding, its output after
+    seed(s) depends on the world at copy time; with an explicit generator it leaves that generator unconsumed — whereas the current
+    deep copy ([OB.deepcopy_step]) consumes it exactly as the source does. *)
+Theorem C08_old_snapshot_deepcopy_refuted :
   (exists (h p : list (OB.step Z Z)) (e : OB.env) (s : Z) (w1 w2 : world Z),
-     OB.all_np e /\ Forall (fun st => match st with OB.SSnap _ _ _ => True | _ => False end) h /\
+     OB.all_np e /\ Forall (fun st => exists d s j, st = OB.old_default_deepcopy_step d s j) h /\
      fst (OB.run_obj 0%Z (OB.SCall (OBP.zseed s) :: p) (OB.env_after e h) (snd (OB.run_obj 0%Z h e w1))) <>
      fst (OB.run_obj 0%Z (OB.SCall (OBP.zseed s) :: p) (OB.env_after e h) (snd (OB.run_obj 0%Z h e w2)))) /\
   (exists (e : OB.env) (w : world Z), e 0%nat = LEx 0 /\
-     snd (OB.run_obj 0%Z [OB.SSnap 1 0 7; OB.SUse 1 OBP.zuse] e w) (LEx 0) = w (LEx 0) /\
+     snd (OB.run_obj 0%Z [OB.old_default_deepcopy_step 1 0 7; OB.SUse 1 OBP.zuse] e w) (LEx 0) = w (LEx 0) /\
      snd (OB.run_obj 0%Z [OB.SUse 0 OBP.zuse] e w) (LEx 0) <> w (LEx 0) /\
-     snd (OB.run_obj 0%Z [OB.SCopy 1 0; OB.SUse 1 OBP.zuse] e w) (LEx 0) = snd (OB.run_obj 0%Z [OB.SUse 0 OBP.zuse] e w) (LEx 0)).
+     snd (OB.run_obj 0%Z [OB.deepcopy_step 1 0; OB.SUse 1 OBP.zuse] e w) (LEx 0) = snd (OB.run_obj 0%Z [OB.SUse 0 OBP.zuse] e w) (LEx 0)).
 Proof. split; [exact OBP.snapshot_copy_not_reproducible | exact OBP.snapshot_copy_does_not_consume]. Qed.
-Print Assumptions C08_snapshot_copy_refuted.
+Print Assumptions C08_old_snapshot_deepcopy_refuted.
 
-(** The rng property setter of a selection protocol re-points the protocol's own generator only (finding
-    C08-selprot-rng-setter-stale-optimiser): the default optimiser built by the constructor keeps the constructor's generator, so with
-    rng = None at construction and a generator supplied through the setter the global numpy stream is still advanced; a setter that
-    re-points the optimiser too leaves both global streams untouched. *)
-Theorem C08_setter_stale_optimiser_refuted : exists (e : OB.env) (w : world Z),
-  snd (OB.run_obj 0%Z OBP.setter_stale_prog e w) LNp <> w LNp /\
-  snd (OB.run_obj 0%Z OBP.setter_repointing_prog e w) LNp = w LNp /\ snd (OB.run_obj 0%Z OBP.setter_repointing_prog e w) LPy = w LPy.
-Proof. exact OBP.setter_stale_part_not_isolated. Qed.
-Print Assumptions C08_setter_stale_optimiser_refuted.
+(** The deep copy of the CURRENT code (the __deepcopy__ every stochastic class inherits shares the generator) behaves as its source: same
+    output, same world afterwards — full strength, all bindings, all semantics of the stochastic method, all worlds. *)
+Theorem C08_deepcopy_is_source : forall (G O : Type) (out_unit : O) (e : OB.env) (d s : nat) (f : G -> O * G) (w : world G),
+  fst (OB.run_obj out_unit [OB.deepcopy_step d s; OB.SUse d f] e w) = out_unit :: fst (OB.run_obj out_unit [OB.SUse s f] e w) /\
+  snd (OB.run_obj out_unit [OB.deepcopy_step d s; OB.SUse d f] e w) = snd (OB.run_obj out_unit [OB.SUse s f] e w).
+Proof. exact OBP.deepcopy_is_source. Qed.
+Print Assumptions C08_deepcopy_is_source.
+
+(** The deep-copy routes of the source (the six base-class __deepcopy__ methods every class accepting rng inherits — audited by
+    introspection on every run — and G_E_Phenotyping's) exist in the regenerated table, take no snapshot of a generator, and reach
+    explicit sources only (up to the root causes that remain known). *)
+Theorem C08_deepcopy_routes_share :
+  (forall nm, In nm FP.deepcopy_routes -> exists p, FP.id_of nm = Some p) /\
+  forall nm p, In nm FP.deepcopy_routes -> FP.id_of nm = Some p ->
+    FP.has FPC.COPIES (FP.direct FP.tbl p) = false /\
+    forall k, FP.reach FP.tbl p k -> In k FP.root_ids \/ FP.sub (FP.direct FP.tbl k) FP.EXPLICIT_OK = true.
+Proof. exact FPCP.deepcopy_routes_share. Qed.
+Print Assumptions C08_deepcopy_routes_share.
+
+(** The rng property setter of a protocol that built default optimisers (C08-selprot-rng-setter-stale-optimiser and the legacy protocols,
+    repaired) at full strength: after [prot.rng = generator i] — whatever generators the protocol and its default optimiser held before,
+    for every sequence of stochastic calls on the protocol and on that optimiser — both global streams are untouched and outputs and the
+    final state of generator i are functions of its state. *)
+Theorem C08_rng_setter_repoints_default_optimiser : forall (G O : Type) (out_unit : O) (i prot algo : nat) (e : OB.env)
+    (us : list (nat * (G -> O * G))),
+  (forall u, In u us -> fst u = prot \/ fst u = algo) ->
+  let p := OB.rng_setter prot algo (LEx i) ++ OB.uses us in
+  forall w, snd (OB.run_obj out_unit p e w) LPy = w LPy /\ snd (OB.run_obj out_unit p e w) LNp = w LNp /\
+    forall w', w' (LEx i) = w (LEx i) ->
+      fst (OB.run_obj out_unit p e w') = fst (OB.run_obj out_unit p e w) /\
+      snd (OB.run_obj out_unit p e w') (LEx i) = snd (OB.run_obj out_unit p e w) (LEx i).
+Proof. exact OBP.rng_setter_isolated. Qed.
+Print Assumptions C08_rng_setter_repoints_default_optimiser.
+Example C08_rng_setter_hyps_satisfiable : forall u, In u [(0%nat, OBP.zuse); (1%nat, OBP.zuse); (0%nat, OBP.zuse)] -> fst u = 0%nat \/ fst u = 1%nat.
+Proof. exact OBP.rng_setter_hyps_satisfiable. Qed.
+
+(** Regression witness about the FORMER setter ([OB.old_rng_setter] re-pointed the protocol only): the default optimiser built by the
+    constructor kept the constructor's generator, so with rng = None at construction and a generator supplied through the setter the
+    global numpy stream was still advanced; the current setter ([OB.rng_setter]) leaves both global streams untouched on the same program. *)
+Theorem C08_old_setter_stale_optimiser_refuted : exists (e : OB.env) (w : world Z),
+  snd (OB.run_obj 0%Z OBP.old_setter_stale_prog e w) LNp <> w LNp /\
+  snd (OB.run_obj 0%Z OBP.setter_prog e w) LNp = w LNp /\ snd (OB.run_obj 0%Z OBP.setter_prog e w) LPy = w LPy.
+Proof. exact OBP.old_setter_stale_part_not_isolated. Qed.
+Print Assumptions C08_old_setter_stale_optimiser_refuted.
 
 (** No function of the current source snapshots a generator (copy.copy / copy.deepcopy / pickle applied to rng, random_state,
     <obj>.rng, <obj>._rng, global_prng; get_state / __getstate__ / __reduce__ / bit_generator.state read from one): every node of the
@@ -295,7 +334,7 @@ Print Assumptions C08_no_generator_snapshot.
 Example C08_copy_hyps_satisfiable :
   OB.only 0 (fun _ => LNp) ([OB.SNew 0 (LEx 0); OB.SCopy 1 0; OB.SCopy 2 1; OB.SUse 1 OBP.zuse; OB.SUse 2 OBP.zuse; OB.SUse 0 OBP.zuse] : list (OB.step Z Z)) /\
   (forall (s : Z) (w1 w2 : world Z),
-    let e := (fun _ => LNp) : OB.env in let h := [OB.SCopy 1 0] : list (OB.step Z Z) in
+    let e := (fun _ => LNp) : OB.env in let h := [OB.deepcopy_step 1 0] : list (OB.step Z Z) in
     let p := [OB.SUse 1 OBP.zuse; OB.SCopy 2 1; OB.SUse 2 OBP.zuse; OB.SUse 0 OBP.zuse] in
     fst (OB.run_obj 0%Z (OB.SCall (OBP.zseed s) :: p) (OB.env_after e h) (snd (OB.run_obj 0%Z h e w1))) =
     fst (OB.run_obj 0%Z (OB.SCall (OBP.zseed s) :: p) (OB.env_after e h) (snd (OB.run_obj 0%Z h e w2)))).
@@ -307,7 +346,7 @@ Example C08_hyps_satisfiable : forall (f g : option MT.st -> option Z * option M
   (let p := [WP.spawn_call 64 0; WP.explicit_call 0 f; WP.global_call g] in Forall respects p /\ scoped [LPy; LNp] p)
   /\ WP.library_default_call (WP.global_call g)
   /\ (100 <= length rng_functions)%nat /\ (100 <= length rng_components)%nat /\ (40 <= length FP.must_ids)%nat
-  /\ (25 <= length FP.repaired_ids)%nat.
+  /\ (49 <= length FP.repaired_ids)%nat.
 Proof.
   intros f g. split; [exact (WP.example_program f g) |]. split; [exact (WP.example_library_call g) |].
   destruct FPP.rng_functions_nonempty as (H1 & H2 & H3). repeat split; try assumption. exact FPP.repaired_nonempty.
